@@ -566,21 +566,16 @@ def _r19_6(prog: Program, res: Result) -> None:
             while loop is not None and not isinstance(loop, ast.For):
                 loop = parent(loop)
             new_exprs = [norm(a.value) for a in (ast.walk(loop) if loop is not None else []) if isinstance(a, ast.Assign) and isinstance(a.targets[0], ast.Subscript)]
+            # a membership test of the new name in the refusing blacklist that is known to be FALSE where the
+            # definition is marked for deletion (early `continue`, nesting, or a negative guard: the path condition decides)
             ok = False
-            outer = parent(loop) if loop is not None else None
-            scope_stmts = []
-            a = loop
-            while a is not None and a is not fn.node:
-                p_ = parent(a)
-                for fld in ("body", "orelse"):
-                    lst = getattr(p_, fld, None)
-                    if isinstance(lst, list) and a in lst:
-                        scope_stmts.extend(lst[:lst.index(a)])
-                a = p_
-            for i in scope_stmts:
-                if isinstance(i, ast.If) and i.body and isinstance(i.body[-1], (ast.Continue, ast.Return)) and isinstance(i.test, ast.Compare) \
-                        and isinstance(i.test.ops[0], ast.In) and norm(i.test.left) in new_exprs and want <= source_of(i.test.comparators[0], fn):
-                    ok = True
+            pa = PathAnalysis(prog, fn)
+            for cmp_ in walk_own(fn.node):
+                if isinstance(cmp_, ast.Compare) and len(cmp_.ops) == 1 and isinstance(cmp_.ops[0], (ast.In, ast.NotIn)) \
+                        and norm(cmp_.left) in new_exprs and want <= source_of(cmp_.comparators[0], fn):
+                    pol = isinstance(cmp_.ops[0], ast.NotIn)
+                    if pa.reached(add) and pa.holds_at(add, lambda w, c=cmp_, p_=pol: pa.formula(c, w, p_))[0]:
+                        ok = True
             res.decide(ok, "R19.6", fn.loc(add), fn.fq, f"{short(add, 40)} (uses redirected to {new_exprs[:1]})",
                        f"skipped when the new name is one {fv.name} refuses ({sorted(want)})" if ok else
                        f"{fv.name} refuses to rename to names of {sorted(want)}; here the definition is marked for deletion without that test: with `def sum` and an identical "
